@@ -1,0 +1,9 @@
+//go:build !verif
+
+package ttlv
+
+import "reflect"
+
+// verifCachePoint marks the accesses to the encode / decode plan caches. Without the
+// "verif" build tag it is an empty function that the compiler inlines away.
+func verifCachePoint(cache, op int, ty reflect.Type) {}
